@@ -19,7 +19,7 @@ func init() {
 			"(4) a send stores the new code, a fresh hash, the send time, sendCount+1 and resets the attempt counter, writes the entry to the cache only after the send checks passed and returns that hash; (5) the send check refuses under `now-setTime < MinInterval`, refreshes the window when it elapsed, and otherwise refuses under sendCount > MaxCount. " +
 			"NOT decided: time-dependent regimes between the always/never extremes, code length in mock mode, the SMS provider.",
 		Assumptions: []string{"the index callback follows rand.Intn's contract [0,n)"},
-		Floors:      map[string]int{"C19.key-agreement": 2, "C19.alphabet": 1, "C19.verify": 1, "C19.send-update": 1, "C19.send-check": 1, "C19.mock-code": 1},
+		Floors:      map[string]int{"C19.key-agreement": 5, "C19.alphabet": 1, "C19.verify": 1, "C19.send-update": 1, "C19.send-check": 1, "C19.mock-code": 1},
 		Run:         runC19,
 	})
 }
@@ -43,6 +43,7 @@ func runC19(c *Ctx) {
 	}
 	cfg := TraceConfig{Inline: inl}
 	c.checkMockCode(rel)
+	c.checkSimpleCache(rel)
 	fld := func(t, f string) *types.Var { return c.mustField(rel, t, f) }
 	fCode, fHash, fSet, fSendCnt, fVerCnt, fCounterT := fld("vCache", "code"), fld("vCache", "hash"), fld("vCache", "setTime"), fld("vCache", "sendCount"), fld("vCache", "verifyCount"), fld("vCache", "counterTime")
 	fMaxV, fTTL, fMinI, fMaxC, fCntDur := fld("Config", "MaxVerifyCount"), fld("Config", "TTL"), fld("Config", "MinInterval"), fld("Config", "MaxCount"), fld("Config", "CounterDuration")
@@ -527,5 +528,42 @@ func (c *Ctx) checkMockCode(rel string) {
 	}
 	if ok {
 		c.check(loops > 0 && tails > 0, "C19.mock-code", cons, fn.Pos(), "tail of CodeLen characters, or CodeLen-len(phone) padding iterations", "the mock branch of genCode is not recognised (neither the tail slice nor the padding loop was found)")
+	}
+}
+
+// checkSimpleCache: the default cache behind the logic stores and finds an item under the key it is given (the
+// "area-phone" key): Get/Peek/Set hand their key (and value) to the underlying LRU unchanged. A cache that keys
+// by anything else makes one phone's code verify for another.
+func (c *Ctx) checkSimpleCache(rel string) {
+	noInl := func(*ssa.Function, int) bool { return false }
+	for _, m := range []string{"Get", "Peek", "Set"} {
+		fn := c.mustFn(rel, "(simpleCache)."+m)
+		if fn == nil {
+			continue
+		}
+		ts, _ := c.Trace(fn, TraceConfig{Inline: noInl})
+		good, n := true, 0
+		key := "$" + fn.Params[1].Name()
+		for _, t := range ts {
+			if t.End != EndReturn {
+				continue
+			}
+			n++
+			for _, e := range t.Events {
+				if e.Kind != EvCall || e.Callee == nil || recvNamedName(e.Callee) != "LRUCache" {
+					continue
+				}
+				if len(e.Args) < 2 || e.Args[1].Key() != key {
+					good = false
+				}
+				if m == "Set" && (len(e.Args) < 3 || !e.Args[2].mentions("$"+fn.Params[2].Name())) {
+					good = false
+				}
+				if m != "Set" && e.Callee.Name() != "Get" && e.Callee.Name() != "Peek" {
+					good = false
+				}
+			}
+		}
+		c.check(good && n > 0, "C19.key-agreement", "(vcode.simpleCache)."+m, fn.Pos(), "key passed through", "the default cache does not pass the caller's key (and value) to the underlying LRU unchanged: items of different (area, phone) pairs collide or are not found")
 	}
 }
